@@ -547,7 +547,7 @@ class World:
                 fn = catalog.UPDATER_MAKERS[name](s)
                 c = Collab(name + ":" + s["fn"], fn)
                 if cf and cf.get("which") == name:
-                    if cf["kind"] in ("raise", "interrupt"):
+                    if cf["kind"] in ("raise", "interrupt", "boolify"):
                         c.fault = (cf["n"], cf["kind"])
                     else:
                         c.fault = (cf["n"], ("ret", unjson(cf["value"])))
@@ -786,6 +786,22 @@ class World:
             db.close()
             self.closed = True
             return None
+        if k == "other_db":
+            # a second, unrelated CSV database in the same process, with its
+            # own formatting options, is used and closed
+            from .simdisk import DB_DIR
+            other = DB_DIR + "/other.csv"
+            kw = dict(DIALECTS[op.get("dialect", "default")])
+            odb = tf.TinyFlux(other, encoding=op.get("encoding"), **kw)
+            try:
+                odb.insert(tf.Point(
+                    time=time_from_json({"iso": "2020-01-01T00:00:00+00:00"}),
+                    tags={"k": "v;w|x"}, fields={"n": 1}))
+                n = len(odb.all())
+            finally:
+                odb.close()
+                self.disk._unlink_quiet(other)
+            return n
         if k == "clock":
             self.clock.move(op["delta_us"])
             if op["delta_us"] < 0:
